@@ -76,7 +76,7 @@ def judge(case):
             continue
         if expose and not callable(ns.get("choose_experiment_variant")) and prog["name"] != "choose_experiment_variant":
             viol.append("exposed layout does not define the helper at module level | %s" % text)
-        if not expose and "choose_experiment_variant" in ns:
+        if not expose and "choose_experiment_variant" in ns and prog["name"] != "choose_experiment_variant":
             viol.append("nested layout leaks the helper to module level | %s" % text)
         for k, enc in enumerate(case["inputs"]):
             env = M.dec_inputs(enc)
@@ -93,5 +93,39 @@ def judge_case(record):
     return judge(record["case"])["viol"]
 
 
+def known_ids():
+    for k in runner.known_for("C14"):
+        if k.get("id") == "K1":
+            return set(k.get("identifiers", []))
+    return set()
+
+
+def known_filter(case, viol):
+    if isinstance(case, dict) and "prog" in case and case["prog"]["name"] in known_ids():
+        return "K1"
+    return None
+
+
+def k1_probes():
+    R = M.ret([(M.lit_str("A"), "1"), (M.lit_str("B"), "1")])
+    for n in ["partial", "deterministic_choice", "str", "map", "choose_experiment_variant"]:
+        yield {"prog": M.program(n, R, splitters=["uid"]), "inputs": [M.enc_inputs({"uid": "u1"})]}
+    yield {"prog": M.program("ExperimentConditionalFailedError", M.if_([(M.cmp_(M.ident("x"), "==", M.lit_int("1")), R)], None), splitters=["uid"]),
+           "inputs": [M.enc_inputs({"uid": "u1", "x": 2})]}
+
+
 def run(ctx, rec):
-    runner.hyp_run(ctx, rec, "programs-x-layouts", cases(), judge, ctx.n(250, 1500))
+    if ctx.shard == 0:
+        still = []
+        for probe in k1_probes():
+            v = judge(probe)
+            if v["viol"]:
+                if known_filter(probe, v["viol"]):
+                    still.append(probe["prog"]["name"])
+                else:
+                    rec.violation("k1-probe", probe, v["viol"])
+                    return
+        if still:
+            rec.known_finding("K1", "an experiment named like a global of the generated module makes the stand-alone text diverge "
+                              "from the evaluator (still failing for: %s)" % ", ".join(still))
+    runner.hyp_run(ctx, rec, "programs-x-layouts", cases(), judge, ctx.n(250, 1500), known_filter=known_filter)
